@@ -89,7 +89,7 @@ func CSVLog returns (err)
   requires @streams logStream != nil
   requires @sink c.ReporterConfig.Output != nil && !typeis(c.ReporterConfig.Output, "*bufio.Writer") && !typeis(c.ReporterConfig.Output, "*encoding/csv.Writer") && TreeInv()
   modifies *
-  modifies ghost(cbLen, cbErr, cbNode, cbStop, cbRet, cbLineNo, cbLine, cbHeader, cbElems, cbNElems, scRd, scPos, privLo, evOf, accKey, accP, accN, accH, bufSink, bufSticky, sinkFailed, sinkPend, prLen, prSink, prArg, prArgs, csvLen, csvW, csvN, csvRow, tnodes, tdepth, tmax, tmapOf, jlen, tvLen, tv, tseg, tvSet, procLen, procTime, procSrc)
+  modifies ghost(cbLen, cbErr, cbNode, cbStop, cbRet, cbLineNo, cbLine, cbHeader, cbElems, cbNElems, scRd, scPos, privLo, evOf, accKey, accP, accN, accH, bufSink, bufSticky, sinkFailed, sinkPend, prLen, prSink, prArg, prArgs, csvLen, csvW, csvN, csvRow, tnodes, tdepth, tmax, tmapOf, jlen, tvLen, tv, tseg, tvSet, adLen, adName, adVal, adSep, adRoot, procLen, procTime, procSrc)
   let out := payload(c.ReporterConfig.Output)
   let lrd := payload(logStream)
   let cc := c.ParserConfig.CommentChar
@@ -104,7 +104,7 @@ func CSVDatabase returns (err)
   requires @streams dbStream != nil
   requires @sink cdc.ReporterConfig.Output != nil && !typeis(cdc.ReporterConfig.Output, "*bufio.Writer") && !typeis(cdc.ReporterConfig.Output, "*encoding/csv.Writer")
   calluse ParseStreamCallback#1 csvdb
-  modifies ghost(cbLen, cbErr, cbNode, cbStop, cbRet, cbLineNo, cbLine, cbHeader, cbElems, cbNElems, scRd, scPos, privLo, evOf, accKey, accP, accN, accH, bufSink, bufSticky, sinkFailed, sinkPend, prLen, prSink, prArg, prArgs, csvLen, csvW, csvN, csvRow, tnodes, tdepth, tmax, tmapOf, jlen, tvLen, tv, tseg, tvSet, procLen, procTime, procSrc)
+  modifies ghost(cbLen, cbErr, cbNode, cbStop, cbRet, cbLineNo, cbLine, cbHeader, cbElems, cbNElems, scRd, scPos, privLo, evOf, accKey, accP, accN, accH, bufSink, bufSticky, sinkFailed, sinkPend, prLen, prSink, prArg, prArgs, csvLen, csvW, csvN, csvRow, tnodes, tdepth, tmax, tmapOf, jlen, tvLen, tv, tseg, tvSet, adLen, adName, adVal, adSep, adRoot, procLen, procTime, procSrc)
   let out := payload(cdc.ReporterConfig.Output)
   let drd := payload(dbStream)
   let cc := cdc.ParserConfig.CommentChar
@@ -119,7 +119,7 @@ func CSVDatabaseResolved returns (err)
   requires @sink cdc.ReporterConfig.Output != nil && !typeis(cdc.ReporterConfig.Output, "*bufio.Writer") && !typeis(cdc.ReporterConfig.Output, "*encoding/csv.Writer")
   calluse Resolve#1 any
   modifies *
-  modifies ghost(cbLen, cbErr, cbNode, cbStop, cbRet, cbLineNo, cbLine, cbHeader, cbElems, cbNElems, scRd, scPos, privLo, evOf, accKey, accP, accN, accH, bufSink, bufSticky, sinkFailed, sinkPend, prLen, prSink, prArg, prArgs, csvLen, csvW, csvN, csvRow, tnodes, tdepth, tmax, tmapOf, jlen, tvLen, tv, tseg, tvSet, procLen, procTime, procSrc)
+  modifies ghost(cbLen, cbErr, cbNode, cbStop, cbRet, cbLineNo, cbLine, cbHeader, cbElems, cbNElems, scRd, scPos, privLo, evOf, accKey, accP, accN, accH, bufSink, bufSticky, sinkFailed, sinkPend, prLen, prSink, prArg, prArgs, csvLen, csvW, csvN, csvRow, tnodes, tdepth, tmax, tmapOf, jlen, tvLen, tv, tseg, tvSet, adLen, adName, adVal, adSep, adRoot, procLen, procTime, procSrc)
   let out := payload(cdc.ReporterConfig.Output)
   let drd := payload(dbStream)
   let cc := cdc.ParserConfig.CommentChar
@@ -150,22 +150,22 @@ func CSVDatabaseResolved returns (err)
 // ---------------------------------------------------------------------------------------------
 type csv.CSVLogCmd(logStream, c) returns (err)
   modifies *
-  modifies ghost(cbLen, cbErr, cbNode, cbStop, cbRet, cbLineNo, cbLine, cbHeader, cbElems, cbNElems, scRd, scPos, privLo, evOf, accKey, accP, accN, accH, bufSink, bufSticky, sinkFailed, sinkPend, prLen, prSink, prArg, prArgs, csvLen, csvW, csvN, csvRow, tnodes, tdepth, tmax, tmapOf, jlen, tvLen, tv, tseg, tvSet, procLen, procTime, procSrc, lastOpen, cfgRd)
+  modifies ghost(cbLen, cbErr, cbNode, cbStop, cbRet, cbLineNo, cbLine, cbHeader, cbElems, cbNElems, scRd, scPos, privLo, evOf, accKey, accP, accN, accH, bufSink, bufSticky, sinkFailed, sinkPend, prLen, prSink, prArg, prArgs, csvLen, csvW, csvN, csvRow, tnodes, tdepth, tmax, tmapOf, jlen, tvLen, tv, tseg, tvSet, adLen, adName, adVal, adSep, adRoot, procLen, procTime, procSrc, lastOpen, cfgRd)
 
 type csv.CSVDatabaseCmd(dbStream, cdc) returns (err)
   modifies *
-  modifies ghost(cbLen, cbErr, cbNode, cbStop, cbRet, cbLineNo, cbLine, cbHeader, cbElems, cbNElems, scRd, scPos, privLo, evOf, accKey, accP, accN, accH, bufSink, bufSticky, sinkFailed, sinkPend, prLen, prSink, prArg, prArgs, csvLen, csvW, csvN, csvRow, tnodes, tdepth, tmax, tmapOf, jlen, tvLen, tv, tseg, tvSet, procLen, procTime, procSrc, lastOpen, cfgRd)
+  modifies ghost(cbLen, cbErr, cbNode, cbStop, cbRet, cbLineNo, cbLine, cbHeader, cbElems, cbNElems, scRd, scPos, privLo, evOf, accKey, accP, accN, accH, bufSink, bufSticky, sinkFailed, sinkPend, prLen, prSink, prArg, prArgs, csvLen, csvW, csvN, csvRow, tnodes, tdepth, tmax, tmapOf, jlen, tvLen, tv, tseg, tvSet, adLen, adName, adVal, adSep, adRoot, procLen, procTime, procSrc, lastOpen, cfgRd)
 
 type csv.withFileReaders(fileNames, cb) returns (err)
   modifies *
-  modifies ghost(cbLen, cbErr, cbNode, cbStop, cbRet, cbLineNo, cbLine, cbHeader, cbElems, cbNElems, scRd, scPos, privLo, evOf, accKey, accP, accN, accH, bufSink, bufSticky, sinkFailed, sinkPend, prLen, prSink, prArg, prArgs, csvLen, csvW, csvN, csvRow, tnodes, tdepth, tmax, tmapOf, jlen, tvLen, tv, tseg, tvSet, procLen, procTime, procSrc, lastOpen, cfgRd)
+  modifies ghost(cbLen, cbErr, cbNode, cbStop, cbRet, cbLineNo, cbLine, cbHeader, cbElems, cbNElems, scRd, scPos, privLo, evOf, accKey, accP, accN, accH, bufSink, bufSticky, sinkFailed, sinkPend, prLen, prSink, prArg, prArgs, csvLen, csvW, csvN, csvRow, tnodes, tdepth, tmax, tmapOf, jlen, tvLen, tv, tseg, tvSet, adLen, adName, adVal, adSep, adRoot, procLen, procTime, procSrc, lastOpen, cfgRd)
 
 func NewCSVLogCommand$1$1$1 returns (err)
   props C16 C06 C13 C08
   requires @streams len(streams) == 1 && csvLog != nil
   dyncall 1 csv.CSVLogCmd
   modifies *
-  modifies ghost(cbLen, cbErr, cbNode, cbStop, cbRet, cbLineNo, cbLine, cbHeader, cbElems, cbNElems, scRd, scPos, privLo, evOf, accKey, accP, accN, accH, bufSink, bufSticky, sinkFailed, sinkPend, prLen, prSink, prArg, prArgs, csvLen, csvW, csvN, csvRow, tnodes, tdepth, tmax, tmapOf, jlen, tvLen, tv, tseg, tvSet, procLen, procTime, procSrc, lastOpen, cfgRd)
+  modifies ghost(cbLen, cbErr, cbNode, cbStop, cbRet, cbLineNo, cbLine, cbHeader, cbElems, cbNElems, scRd, scPos, privLo, evOf, accKey, accP, accN, accH, bufSink, bufSticky, sinkFailed, sinkPend, prLen, prSink, prArg, prArgs, csvLen, csvW, csvN, csvRow, tnodes, tdepth, tmax, tmapOf, jlen, tvLen, tv, tseg, tvSet, adLen, adName, adVal, adSep, adRoot, procLen, procTime, procSrc, lastOpen, cfgRd)
   ghost before dyncall 1 {
     assert @wiring [C16 C06 C13] #arg0 == streams[0] && #arg1 == cfg
   }
@@ -176,7 +176,7 @@ func NewCSVLogCommand$1$1 returns (err)
   requires @loaded o != nil && cu.WithFileReaders != nil
   dyncall 1 csv.withFileReaders
   modifies *
-  modifies ghost(cbLen, cbErr, cbNode, cbStop, cbRet, cbLineNo, cbLine, cbHeader, cbElems, cbNElems, scRd, scPos, privLo, evOf, accKey, accP, accN, accH, bufSink, bufSticky, sinkFailed, sinkPend, prLen, prSink, prArg, prArgs, csvLen, csvW, csvN, csvRow, tnodes, tdepth, tmax, tmapOf, jlen, tvLen, tv, tseg, tvSet, procLen, procTime, procSrc, lastOpen, cfgRd)
+  modifies ghost(cbLen, cbErr, cbNode, cbStop, cbRet, cbLineNo, cbLine, cbHeader, cbElems, cbNElems, scRd, scPos, privLo, evOf, accKey, accP, accN, accH, bufSink, bufSticky, sinkFailed, sinkPend, prLen, prSink, prArg, prArgs, csvLen, csvW, csvN, csvRow, tnodes, tdepth, tmax, tmapOf, jlen, tvLen, tv, tseg, tvSet, adLen, adName, adVal, adSep, adRoot, procLen, procTime, procSrc, lastOpen, cfgRd)
   ghost before dyncall 1 {
     assert @files [C16] len(#arg0) == 1 && #arg0[0] == o.GlobalConfig.LogFileName
     assert @iso-dates [C13] cfg.ReporterConfig.OutputTimeFormat == "2006-01-02" && cfg.ReporterConfig.CSVSeparator == 44
@@ -188,7 +188,7 @@ func NewCSVDatabaseCommand$1$1$1 returns (err)
   requires @streams len(streams) == 1 && o != nil && csvDatabase != nil
   dyncall 1 csv.CSVDatabaseCmd
   modifies *
-  modifies ghost(cbLen, cbErr, cbNode, cbStop, cbRet, cbLineNo, cbLine, cbHeader, cbElems, cbNElems, scRd, scPos, privLo, evOf, accKey, accP, accN, accH, bufSink, bufSticky, sinkFailed, sinkPend, prLen, prSink, prArg, prArgs, csvLen, csvW, csvN, csvRow, tnodes, tdepth, tmax, tmapOf, jlen, tvLen, tv, tseg, tvSet, procLen, procTime, procSrc, lastOpen, cfgRd)
+  modifies ghost(cbLen, cbErr, cbNode, cbStop, cbRet, cbLineNo, cbLine, cbHeader, cbElems, cbNElems, scRd, scPos, privLo, evOf, accKey, accP, accN, accH, bufSink, bufSticky, sinkFailed, sinkPend, prLen, prSink, prArg, prArgs, csvLen, csvW, csvN, csvRow, tnodes, tdepth, tmax, tmapOf, jlen, tvLen, tv, tseg, tvSet, adLen, adName, adVal, adSep, adRoot, procLen, procTime, procSrc, lastOpen, cfgRd)
   ghost before dyncall 1 {
     assert @streams [C16] #arg0 == streams[0]
     assert @wiring [C16 C13] #arg1.ParserConfig == o.ParserConfig && #arg1.ReporterConfig == o.ReporterConfig
@@ -199,7 +199,7 @@ func NewCSVDatabaseCommand$1$1 returns (err)
   requires @loaded o != nil && cu.WithFileReaders != nil
   dyncall 1 csv.withFileReaders
   modifies *
-  modifies ghost(cbLen, cbErr, cbNode, cbStop, cbRet, cbLineNo, cbLine, cbHeader, cbElems, cbNElems, scRd, scPos, privLo, evOf, accKey, accP, accN, accH, bufSink, bufSticky, sinkFailed, sinkPend, prLen, prSink, prArg, prArgs, csvLen, csvW, csvN, csvRow, tnodes, tdepth, tmax, tmapOf, jlen, tvLen, tv, tseg, tvSet, procLen, procTime, procSrc, lastOpen, cfgRd)
+  modifies ghost(cbLen, cbErr, cbNode, cbStop, cbRet, cbLineNo, cbLine, cbHeader, cbElems, cbNElems, scRd, scPos, privLo, evOf, accKey, accP, accN, accH, bufSink, bufSticky, sinkFailed, sinkPend, prLen, prSink, prArg, prArgs, csvLen, csvW, csvN, csvRow, tnodes, tdepth, tmax, tmapOf, jlen, tvLen, tv, tseg, tvSet, adLen, adName, adVal, adSep, adRoot, procLen, procTime, procSrc, lastOpen, cfgRd)
   ghost before dyncall 1 {
     assert @files [C16] len(#arg0) == 1 && #arg0[0] == o.GlobalConfig.DbFileName
   }
@@ -209,7 +209,7 @@ func NewCSVDatabaseResolvedCommand$1$1 returns (err)
   requires @loaded o != nil && cu.WithFileReaders != nil
   dyncall 1 csv.withFileReaders
   modifies *
-  modifies ghost(cbLen, cbErr, cbNode, cbStop, cbRet, cbLineNo, cbLine, cbHeader, cbElems, cbNElems, scRd, scPos, privLo, evOf, accKey, accP, accN, accH, bufSink, bufSticky, sinkFailed, sinkPend, prLen, prSink, prArg, prArgs, csvLen, csvW, csvN, csvRow, tnodes, tdepth, tmax, tmapOf, jlen, tvLen, tv, tseg, tvSet, procLen, procTime, procSrc, lastOpen, cfgRd)
+  modifies ghost(cbLen, cbErr, cbNode, cbStop, cbRet, cbLineNo, cbLine, cbHeader, cbElems, cbNElems, scRd, scPos, privLo, evOf, accKey, accP, accN, accH, bufSink, bufSticky, sinkFailed, sinkPend, prLen, prSink, prArg, prArgs, csvLen, csvW, csvN, csvRow, tnodes, tdepth, tmax, tmapOf, jlen, tvLen, tv, tseg, tvSet, adLen, adName, adVal, adSep, adRoot, procLen, procTime, procSrc, lastOpen, cfgRd)
   ghost before dyncall 1 {
     assert @files [C16] len(#arg0) == 1 && #arg0[0] == o.GlobalConfig.DbFileName
   }
@@ -220,7 +220,7 @@ func NewCSVDatabaseResolvedCommand$1$1$1 returns (err)
   requires @streams len(streams) == 1 && streams[0] != nil && o != nil
   requires @sink o.ReporterConfig.Output != nil && !typeis(o.ReporterConfig.Output, "*bufio.Writer") && !typeis(o.ReporterConfig.Output, "*encoding/csv.Writer")
   modifies *
-  modifies ghost(cbLen, cbErr, cbNode, cbStop, cbRet, cbLineNo, cbLine, cbHeader, cbElems, cbNElems, scRd, scPos, privLo, evOf, accKey, accP, accN, accH, bufSink, bufSticky, sinkFailed, sinkPend, prLen, prSink, prArg, prArgs, csvLen, csvW, csvN, csvRow, tnodes, tdepth, tmax, tmapOf, jlen, tvLen, tv, tseg, tvSet, procLen, procTime, procSrc, lastOpen, cfgRd)
+  modifies ghost(cbLen, cbErr, cbNode, cbStop, cbRet, cbLineNo, cbLine, cbHeader, cbElems, cbNElems, scRd, scPos, privLo, evOf, accKey, accP, accN, accH, bufSink, bufSticky, sinkFailed, sinkPend, prLen, prSink, prArg, prArgs, csvLen, csvW, csvN, csvRow, tnodes, tdepth, tmax, tmapOf, jlen, tvLen, tv, tseg, tvSet, adLen, adName, adVal, adSep, adRoot, procLen, procTime, procSrc, lastOpen, cfgRd)
   ghost before call 1 CSVDatabaseResolved {
     assert @wiring [C16 C11 C13] #arg0 == streams[0] && #arg1.ParserConfig == o.ParserConfig && #arg1.ReporterConfig == o.ReporterConfig && #arg1.ResolverConfig == o.ResolverConfig
   }
